@@ -3,6 +3,7 @@ import KyupyVerif.Proofs.BenchText
 import KyupyVerif.Proofs.VerilogText
 import KyupyVerif.Proofs.BenchEnd
 import KyupyVerif.Proofs.BenchErr
+import KyupyVerif.Proofs.BenchSched
 import KyupyVerif.Proofs.VerilogEnd
 import KyupyVerif.Proofs.SemL
 /-! # C11 — parsed Verilog and bench netlists simulate as the described netlist
@@ -65,8 +66,9 @@ tree after the `name` callback, handed on by `toR`).  Theorems quantify over ALL
   table makes of `K`; for a library of primitives this is the function of the netlist; library substitution is C10
   `resolve_sem`); NOT covered: multi-bit pin connections, 1-bit bus by base name, floating inputs / undriven outputs, assign pairs
   out of dependency order or onto a driven target (findings D23/D24).
-  Hypotheses of the end-to-end theorems `orderOKB` / `forksOKB` /
-  `linesDrivenB` are decidable conditions on (net, order), not derived from the description.
+  Hypotheses of the end-to-end theorems `orderOKB` / `forksOKB` / `linesDrivenB` are decidable conditions on (net, order); for
+  bench they follow from the description (`bench_sched_hyps`, `bench_end_to_end_closed`: closed description over kinds the prefix
+  table knows, a topological order that covers every node), for Verilog they are hypotheses.
 * **Correspondence** (harness/c11.py, differential, not proof): (1) == real `verilog.parse` / `bench.parse` on generated
   texts: node list, line list with all pin numbers, `io_nodes`, connectivity table; both raise or both build on inputs outside
   the subset.  Which variant of pass 1.5 / pass 2 (`Cfg.assignFix`, `Cfg.onebitDecl`) the code under test has is probed.
@@ -848,6 +850,35 @@ theorem bench_end_to_end (stmts : List BStmt) (hok : benchOKB stmts = true) (ord
         (exec semL2n ((genOps Gen.kindPrefixes (benchNet stmts) order false).map OpRow.toOp) env)) = benchCaptures stmts σ :=
   bench_sim_generic (benchOK_of stmts hok) semL2n specL2 (fun _ h xs => semL2n_eq_spec h xs) (!·) prim2 semSpec2 order ho hfk hall env
 
+/-- the scheduler's domain hypotheses follow from the DESCRIPTION: for a closed description (`benchClosedB`: every operand is a
+port or a gate output, no kind lower-cases to `__fork__`) `forksOKB` holds for EVERY order; if moreover every combinational kind
+is known to the simulator's generated prefix table in the arity its operand count selects (`benchKnownB`) and the order covers every
+node, every line is scheduled (`linesDrivenB`) -/
+theorem bench_sched_hyps (stmts : List BStmt) (hcl : benchClosedB stmts = true) (order : List Nat) :
+    forksOKB (benchNet stmts) order = true ∧
+    (benchKnownB stmts = true → (∀ n, n < (benchNet stmts).nodes.size → n ∈ order) →
+      linesDrivenB Gen.kindPrefixes (benchNet stmts) order = true) :=
+  ⟨bench_forksOK (benchClosed_of stmts hcl) order,
+   fun hkn hcov => bench_linesDriven (benchClosed_of stmts hcl) hkn order (fun n hn => hcov n (by rw [benchNet_nodes_size]; exact hn))⟩
+
+/-- **`bench_end_to_end_closed`**: `bench_end_to_end` with hypotheses on the description and the order only — a closed
+description over known kinds, a topological order (`orderOKB`) that covers every node of the net -/
+theorem bench_end_to_end_closed (stmts : List BStmt) (hcl : benchClosedB stmts = true) (hkn : benchKnownB stmts = true)
+    (order : List Nat) (ho : orderOKB (benchNet stmts) order = true) (hcov : ∀ n, n < (benchNet stmts).nodes.size → n ∈ order)
+    (env : Nat → Bool) :
+    ∃ σ, BenchModel stmts (env (benchNet stmts).idx.zero) prim2 (fun p => env ((benchNet stmts).idx.ppi + p)) σ ∧
+      (∀ σ', BenchModel stmts (env (benchNet stmts).idx.zero) prim2 (fun p => env ((benchNet stmts).idx.ppi + p)) σ' → σ' = σ) ∧
+      (∀ i, i < (benchNet stmts).lines.size →
+        exec semL2n ((genOps Gen.kindPrefixes (benchNet stmts) order false).map OpRow.toOp) env i = benchLabel stmts σ i) ∧
+      ((benchNet stmts).sNodes.map fun n => ((benchNet stmts).node n).inPin 0 |>.map
+        (exec semL2n ((genOps Gen.kindPrefixes (benchNet stmts) order false).map OpRow.toOp) env)) = benchCaptures stmts σ := by
+  have hok : benchOKB stmts = true := by
+    unfold benchClosedB at hcl
+    rw [Bool.and_eq_true] at hcl
+    exact hcl.1
+  obtain ⟨h1, h2⟩ := bench_sched_hyps stmts hcl order
+  exact bench_end_to_end stmts hok order ho h1 (h2 hkn hcov) env
+
 /-- the same for the 8-valued simulation against the documented algebra (`prim8`; `semL8` = the real dispatch of `c_prop`) -/
 theorem bench_end_to_end8 (stmts : List BStmt) (hok : benchOKB stmts = true) (order : List Nat)
     (ho : orderOKB (benchNet stmts) order = true) (hfk : forksOKB (benchNet stmts) order = true)
@@ -890,7 +921,8 @@ def exDff : List BStmt :=
 def exDffA : Nat → Bool := fun p => p == 0 || p == 3
 
 example : KV.BenchText.parseBench "INPUT(a) INPUT(b) OUTPUT(z)\nq = DFF(n)\nn = NAND(a, q)\nz = XOR(n, b)" = some exDff := by decide +kernel
-example : exDff.all KV.BenchText.validStmt = true ∧ benchOKB exDff = true ∧ benchClosedB exDff = true := by decide +kernel
+example : exDff.all KV.BenchText.validStmt = true ∧ benchOKB exDff = true ∧ benchClosedB exDff = true ∧ benchKnownB exDff = true := by
+  decide +kernel
 example : benchSNames exDff = [.fork "a", .fork "b", .fork "z", .cell "q" 0] ∧ benchSigs exDff = ["q", "n", "n", "a", "q", "z", "n", "b"] := by
   decide +kernel
 /-- the model: `q = 1` (state), `n = NAND(1, 1) = 0`, `z = XOR(0, 0) = 0`; the checker accepts it; observed: `z = 0`, next state of `q` = `n = 0` -/
@@ -901,7 +933,8 @@ example : benchEval exDff false prim2 exDffA = [("q", true), ("n", false), ("z",
 /-- the net (8 nodes: forks a b z n, cell q, fork q, cells n z; 8 lines) and an order satisfying the hypotheses of `bench_end_to_end` -/
 example : (benchNet exDff).io = [0, 1, 2] ∧ (benchNet exDff).sNodes = [0, 1, 2, 4] ∧ (benchNet exDff).lines.size = 8 ∧
     orderOKB (benchNet exDff) [0, 1, 4, 5, 6, 3, 7, 2] = true ∧ forksOKB (benchNet exDff) [0, 1, 4, 5, 6, 3, 7, 2] = true ∧
-    linesDrivenB Gen.kindPrefixes (benchNet exDff) [0, 1, 4, 5, 6, 3, 7, 2] = true := by decide +kernel
+    linesDrivenB Gen.kindPrefixes (benchNet exDff) [0, 1, 4, 5, 6, 3, 7, 2] = true ∧ (benchNet exDff).nodes.size = 8 ∧
+    (List.range 8).all (fun n => [0, 1, 4, 5, 6, 3, 7, 2].contains n) = true := by decide +kernel
 /-- kind families and arities: the primitive a gate statement means -/
 example : specPrimName "nand" false false = some "NAND2" ∧ specPrimName "nand" true false = some "NAND3" ∧
     specPrimName "and" true true = some "AND4" ∧ specPrimName "not" false false = some "INV1" ∧
